@@ -137,8 +137,8 @@ def replay_file(path):
                            cex.get("driver_flags", ()))
     rc, out = run_native(binpath, cex["args"])
     print(out.strip())
-    print("REPRODUCED" if rc == 1 else "NOT-REPRODUCED", "obligation=%s" % rep["failed_obligations"][0]["obligation"])
-    return 1 if rc == 1 else 0
+    print("REPRODUCED" if rc != 0 else "NOT-REPRODUCED", "obligation=%s" % rep["failed_obligations"][0]["obligation"])
+    return 1 if rc != 0 else 0
 
 
 def native_check(driver, sources, args, flags=()):
@@ -146,4 +146,4 @@ def native_check(driver, sources, args, flags=()):
     binpath = build_native(driver, [os.path.join(core.HERE, "replay", s) for s in sources], flags)
     rc, out = run_native(binpath, args)
     return {"driver": driver, "driver_sources": list(sources), "driver_flags": list(flags), "args": [str(a) for a in args],
-            "native_output": out.strip()[-800:], "reproduced": rc == 1}
+            "native_output": out.strip()[-800:], "reproduced": rc != 0 and rc != 2}
